@@ -9,6 +9,7 @@ def run(m, tier):
     results.append(engine_tables.separator_rule(m, "C01.R15"))
     results.append(engine_tables.keyword_value_rule(m, "C01.R16"))
     results.append(engine_tables.sequence_rule(m, "C01.R17"))
+    results.append(engine_tables.list_stmt_rule(m, "C01.R20"))
     from rules import taint_rules
     results.append(taint_rules.dead_pieces_rule(m, "C01.R4"))
     from rules import order_rules, C08
